@@ -4,6 +4,7 @@
  * ',' ' ' and TAB (so the comma structure is the concrete part of the query and
  * every operand kind -- register-like, memory-like, immediate-like, junk -- is
  * covered by the symbolic characters).  All memory-safety checks enabled.
+ * With -DKW_STUB the keyword scanner is replaced by its contract stub.
  *
  * Replay build: the same line goes through asm_assemble_str under ASan/UBSan. */
 #include "vf.h"
@@ -18,6 +19,26 @@
 #define OPW 2
 #endif
 static char line[FILTERED_STR_LEN];
+
+#ifdef VF_CBMC
+/* Contract stub for check_for_keyword (goto-instrument --replace-calls; the real
+ * function is the subject of the c09.leaf.kw queries): it may overwrite a
+ * prefix of the operand -- leading blanks and keywords, never the terminator
+ * or anything behind it -- with blanks, and set any keyword flags. */
+unsigned nondet_uint(void);
+unsigned char nondet_uchar(void);
+void stub_check_for_keyword(struct instr *ins, char *all_opd, int opd_pos) {
+  (void)opd_pos;
+  unsigned k = nondet_uint();
+  __CPROVER_assume(k <= 12);
+  int live = 1;
+  for (unsigned i = 0; i < 12; i++) {
+    if (live && i < k && all_opd[i] != 0) all_opd[i] = ' ';
+    else live = 0;
+  }
+  ins->keyword.is_keyword = nondet_uchar() & 0x3f;
+}
+#endif
 
 void harness(void) {
   int p = 0;
